@@ -29,6 +29,15 @@
  *      <oflags>: what the library passed to open(): R|W|B (access) then C T A X for O_CREAT O_TRUNC
  *      O_APPEND O_EXCL, '-' if open() was not called; <file>: the path's contents after the step
  *      (hex, '-' empty, ABSENT); ref: the in-memory parse of the contents before the step
+ *   N <r|w|v> <o|x> <errno name> <hexname>  the failure REPORT for an arbitrary file name: json_object_from_file |
+ *                                          json_object_to_file_ext | json_object_to_file on the path <hexname>;
+ *                                          o: open() fails with the errno; x: open() succeeds and the first
+ *                                          read()/write() fails with it (the tree written is `true`)
+ *      -> N <NULL|TREE|rc> <msg> <term> <name> <serr> <calls> <opens> <closes> <leak>
+ *      term: the message is NUL-terminated inside its 256-byte buffer; name: it contains the file name verbatim,
+ *      or, when the message fills the buffer, ends in a prefix of it ('-' where the report has no file name: read
+ *      errors name the descriptor); serr: it contains the strerror text of the scripted errno (or fills the buffer).
+ *      The message text itself is never printed.
  *   S <tree> <flags>                       serialization only (used by the generator)
  *      -> S <ser>
  * msg: json_util_get_last_err() != NULL after the call (the message is cleared before it);
@@ -67,8 +76,11 @@ const char *DOMAIN = "fd";
 
 /* documents of thousands of nodes are built and released twice per case: with ASan's default
  * 256 MB quarantine the process only ever touches fresh pages and spends its time in page
- * faults; 16 MB still holds every block a case frees.  ASAN_OPTIONS overrides this. */
-const char *__asan_default_options(void) { return "quarantine_size_mb=16"; }
+ * faults; 16 MB still holds every block a case frees.  ASAN_OPTIONS overrides this.
+ * symbolize=0: a wild read/write provoked by a hostile file name is reported by its kind
+ * (that is all the framework reads); resolving the stack costs seconds per crash and a
+ * broken tree can crash on dozens of lines.  Replay by hand with ASAN_OPTIONS=symbolize=1. */
+const char *__asan_default_options(void) { return "quarantine_size_mb=16:symbolize=0"; }
 
 #define THE_FD 77
 
@@ -88,7 +100,8 @@ static int errno_of(const char *name, size_t n)
 	static const struct { const char *n; int e; } tab[] = {
 		{"EIO", EIO}, {"EINTR", EINTR}, {"EAGAIN", EAGAIN}, {"EBADF", EBADF}, {"ENOSPC", ENOSPC},
 		{"EPIPE", EPIPE}, {"EACCES", EACCES}, {"EMFILE", EMFILE}, {"ENOENT", ENOENT}, {"EISDIR", EISDIR},
-		{"EFBIG", EFBIG}, {"EDQUOT", EDQUOT}, {"EINVAL", EINVAL}, {"ENOMEM", ENOMEM}, {"0", 0}};
+		{"EFBIG", EFBIG}, {"EDQUOT", EDQUOT}, {"EINVAL", EINVAL}, {"ENOMEM", ENOMEM},
+		{"ENOTDIR", ENOTDIR}, {"ENAMETOOLONG", ENAMETOOLONG}, {"EROFS", EROFS}, {"ELOOP", ELOOP}, {"0", 0}};
 	size_t i;
 	for (i = 0; i < sizeof(tab) / sizeof(tab[0]); i++)
 		if (strlen(tab[i].n) == n && memcmp(tab[i].n, name, n) == 0) return tab[i].e;
@@ -470,6 +483,58 @@ static void do_history(char *init, char *steps, long live0)
 	if (overflow) printf(" DEVOVERFLOW");
 }
 
+/* ---- N: what the failure report says, for arbitrary file names ---- */
+static void do_names(char kind, char what, const char *errname, const char *hexname, long live0)
+{
+	size_t n, mlen;
+	unsigned char *nb = unhex(hexname, &n);
+	char *name = (char *)malloc(n + 1);
+	char sched[40];
+	int e = errno_of(errname, strlen(errname));
+	int term, has_name = 0, has_serr, truncated;
+	struct json_object *o = NULL, *tree = NULL;
+	int rc = 0;
+	const char *msg;
+	memcpy(name, nb, n); name[n] = 0;
+	snprintf(sched, sizeof(sched), "E:%s", errname);
+	vf_reset(what == 'x' ? sched : "-");
+	vf.open_ok = what == 'x';
+	vf.open_errno = e ? e : ENOENT;
+	vf.data = (const unsigned char *)""; vf.len = 0;
+	vf.devcap = 64; vf.dev = (unsigned char *)malloc(vf.devcap);
+	if (kind != 'r') tree = json_object_new_boolean(1);
+	if (kind == 'r') o = json_object_from_file(name);
+	else if (kind == 'v') rc = json_object_to_file(name, tree);
+	else rc = json_object_to_file_ext(name, tree, 0);
+	msg = json_util_get_last_err();
+	/* the buffer itself, not the pointer's idea of a string */
+	mlen = strnlen(_last_err, sizeof(_last_err));
+	term = mlen < sizeof(_last_err);
+	truncated = mlen == sizeof(_last_err) - 1;
+	if (term && msg) {
+		const char *se = strerror(e ? e : ENOENT);
+		size_t i;
+		if (n && strstr(_last_err, name)) has_name = 1;
+		else if (n == 0) has_name = 1;
+		else if (truncated)
+			for (i = 0; i < mlen && !has_name; i++) {
+				size_t tail = mlen - i;
+				if (tail <= n && tail >= (n < 32 ? n : 32) && memcmp(_last_err + i, name, tail) == 0) has_name = 1;
+			}
+		has_serr = truncated || strstr(_last_err, se) != NULL;
+	} else has_serr = 0;
+	printf("N ");
+	if (kind == 'r') printf("%s", o ? "TREE" : "NULL"); else printf("%d", rc);
+	printf(" %d %d ", msg != NULL, term);
+	if (kind == 'r' && what == 'x') putchar('-'); else printf("%d", has_name);
+	printf(" %d %ld %ld %ld", has_serr, kind == 'r' ? vf.reads : vf.writes, vf.opens, vf.closes);
+	if (o) json_object_put(o);
+	if (tree) json_object_put(tree);
+	free(vf.dev); free(name); free(nb);
+	printf(" %ld", xa_live - live0);
+	if (vf.badfd) printf(" BADFD");
+}
+
 void run_case(char *rest)
 {
 	char *save = NULL;
@@ -498,6 +563,11 @@ void run_case(char *rest)
 			if (!tree || !fl || !sc) { printf("BADLINE"); return; }
 			do_write(1, which[0], op_ok, tree, atoi(fl), sc, live0);
 		}
+	} else if (strcmp(op, "N") == 0) {
+		char *kind = strtok_r(NULL, " ", &save), *what = strtok_r(NULL, " ", &save);
+		char *en = strtok_r(NULL, " ", &save), *hn = strtok_r(NULL, " ", &save);
+		if (!kind || !what || !en || !hn) { printf("BADLINE"); return; }
+		do_names(kind[0], what[0], en, hn, live0);
 	} else if (strcmp(op, "P") == 0) {
 		char *init = strtok_r(NULL, " ", &save), *steps = strtok_r(NULL, " ", &save);
 		if (!init || !steps) { printf("BADLINE"); return; }
